@@ -6,7 +6,7 @@ if [ -n "$(git -C /repo status --porcelain --untracked-files=no)" ]; then echo "
 git -C /repo apply "$P" || { echo "patch does not apply"; exit 3; }
 /verif/bin/check "$ID" --tier "$TIER" > /tmp/try_patch.$$.log 2>&1; rc=$?
 git -C /repo checkout -- . ; git -C /repo clean -fdq -- . >/dev/null 2>&1
-grep -E "VIOLATION|KNOWN-FINDING|INFRA-ERROR|violation sig" /tmp/try_patch.$$.log | cut -c1-400 | head -12
+grep -E -A6 "VIOLATION|KNOWN-FINDING|INFRA-ERROR|violation sig" /tmp/try_patch.$$.log | cut -c1-400 | head -16
 echo "exit=$rc"; rm -f /tmp/try_patch.$$.log
 # restore evidence of the unchanged tree is the caller's business
 exit $rc
